@@ -71,7 +71,8 @@ def nodelist_restore(rng, res):
             continue
         rr = rp.RankRequirements(n_cores=rng.randint(1, cpn),
                                  n_gpus=rng.randint(0, gpn),
-                                 gpu_occupation=rng.choice([1.0, 0.5, 0.25]),
+                                 gpu_occupation=rng.choice([1.0, 0.5, 0.25, 0.3,
+                                                            0.1, 0.2]),
                                  lfs=rng.choice([0, 10, 40]),
                                  mem=rng.choice([0, 10, 40]))
         n = rng.randint(1, 3)
